@@ -6,6 +6,7 @@ import JunoModel.C18.ProofsHS
 import JunoModel.C18.ProofsPipe
 import JunoModel.C18.ProofsPruner
 import JunoModel.C18.ProofsCompose
+import JunoModel.C18.ProofsWhy
 /-!
 C18 — property theorems (statements only; helper lemmas are in `ProofsSV`, `ProofsRunner`, `ProofsOpen`
 (NewRunner's errors, read faults, histories), `ProofsBlockTx`, `ProofsSDL`, `ProofsHS`, `ProofsPipe`, `ProofsPruner`,
@@ -45,6 +46,16 @@ theorem target_spec (r : Registry) (hr : r.ok = true) (j : Nat) :
     SV.has r.target j = (r[j]?.map Entry.inTarget).getD false :=
   has_target r hr j
 
+/-- `String` (`fmt.Sprintf("SchemaVersion(0b%064b)", sv)`, what the logs and error texts show): always 64
+binary digits, digit `63 - i` from the left is `1` exactly when migration `i` is in the set, and the
+printed digits determine the value (two different versions never print alike). -/
+theorem schemaVersion_string_faithful (a b : SV) (i : Nat) (hi : i < 64) :
+    (SV.digits a).length = 64 ∧
+    (SV.digits a)[63 - i]? = some (if SV.has a i then '1' else '0') ∧
+    (SV.digits a = SV.digits b → a = b) ∧
+    SV.toStr a = "SchemaVersion(0b" ++ String.ofList (SV.digits a) ++ ")" :=
+  ⟨SV.digits_length a, SV.digits_get a i hi, SV.digits_inj a b, rfl⟩
+
 /-! ## A migration is recorded as applied only after it has completed -/
 
 /-- FULL STRENGTH (repaired runner: `markOnNilCtx = false`). For every initial disk, every history
@@ -58,6 +69,20 @@ theorem applied_implies_complete (cfg : Cfg) (hfix : cfg.markOnNilCtx = false) (
   · exact .inl h1
   · exact .inr h1
   · rw [hfix] at h1; cases h1
+
+/-- … and IN THE SAME START (the reviewer's item (b), exported from the loop invariant `BehQ`): whenever a
+start records migration `j` as applied (`apply j` in its log: the commit of the bit together with the
+deletion of the token), `Migrate` of `j` was called in THAT start and returned `(nil, nil)` in it —
+never on the strength of a return of an earlier start, a stored token, or another migration's return. -/
+theorem applied_in_the_start_that_completed_it (cfg : Cfg) (hfix : cfg.markOnNilCtx = false) (d : Disk)
+    (st : Start) (j : Nat) (h : Event.apply j ∈ (start cfg d st).2.1) :
+    (st.env.beh j).st = none ∧ (st.env.beh j).err = .none ∧ (∃ c, Event.call j c ∈ (start cfg d st).2.1) ∧
+    d.cur.has j = false := by
+  obtain ⟨h1, h2, c, h3⟩ := (start_beh cfg d st).1 j h
+  refine ⟨h1, ?_, ⟨c, h3⟩, ((start_calls cfg d st).2 j c h3).2.1⟩
+  rcases h2 with h2 | ⟨h2, _⟩
+  · exact h2
+  · rw [hfix] at h2; cases h2
 
 /-- One mandatory migration that blocks until cancellation (tick 3 = its `Migrate` call) and
 returns `(nil, wrapped ctx.Err())`. -/
@@ -99,7 +124,9 @@ theorem applied_is_permanent (cfg : Cfg) (d : Disk) (sts : List Start) (j : Nat)
 strictly increasing index order (hence each at most once per run); a migration is called only if
 it is in the target and was not applied at the start (hence never again once applied) nor at the
 moment of the call; and when migration `j` is called, every target migration `i < j` is applied at
-that moment — unless `i` returned a resume state while the context was still live (`InProg`). -/
+that moment — unless `i` returned a resume state WITHOUT an error while the context was still live
+(`InProg`; round 5: narrowed from "a resume state with any error class" — a state returned together
+with an error and a live context stops the run, so it can never precede a later call). -/
 theorem once_in_order (cfg : Cfg) (d : Disk) (st : Start) :
     (callIdxs (start cfg d st).2.1).Pairwise (· > ·) ∧
     ∀ j c, Event.call j c ∈ (start cfg d st).2.1 →
@@ -107,15 +134,18 @@ theorem once_in_order (cfg : Cfg) (d : Disk) (st : Start) :
       (∀ i, i < j → st.reg.target.has i = true → c.has i = true ∨ InProg (start cfg d st).2.1 i) :=
   start_calls cfg d st
 
-/-- Consequence for migrations that return a resume state only when cancelled (all migrations
-registered in node/migration.go do): strictly in order. -/
+/-- Consequence for migrations that return `(state, nil)` only when cancelled (all migrations
+registered in node/migration.go do: blocktransactions from `ctx.Done()` / a source cut short,
+statedifflength and the pruner from `!res.IsDone`, headstate never — it returns the state with the
+wrapped context error): strictly in order. Round 5: the hypothesis speaks only of returns WITHOUT an
+error (`.none`); what a migration returns together with an error is irrelevant for the order. -/
 theorem in_order_when_state_only_on_cancel (cfg : Cfg) (d : Disk) (st : Start)
-    (hwb : ∀ i s e c, Event.ret i (some s) e c ∈ (start cfg d st).2.1 → c = true)
+    (hwb : ∀ i s c, Event.ret i (some s) .none c ∈ (start cfg d st).2.1 → c = true)
     (j : Nat) (c : SV) (hc : Event.call j c ∈ (start cfg d st).2.1) (i : Nat) (hi : i < j)
     (ht : st.reg.target.has i = true) : c.has i = true := by
-  rcases (start_calls cfg d st).2 j c hc |>.2.2.2 i hi ht with h | ⟨s, e, h⟩
+  rcases (start_calls cfg d st).2 j c hc |>.2.2.2 i hi ht with h | ⟨s, h⟩
   · exact h
-  · have := hwb i s e false h; cases this
+  · have := hwb i s false h; cases this
 
 /-- ONCE, over whole histories: as soon as a migration is recorded as applied (after any prefix `pre` of
 the history) its `Migrate` is never called again — in no later start, whatever happens in between
@@ -124,6 +154,20 @@ theorem applied_migration_never_called_again (cfg : Cfg) (d : Disk) (pre mid : L
     (h : (starts cfg d pre).1.cur.has j = true) (c : SV) :
     Event.call j c ∉ (start cfg (starts cfg d (pre ++ mid)).1 st).2.1 :=
   no_call_after_applied cfg d pre mid st j h c
+
+/-- WHICH MIGRATION `Run`'S ERROR NAMES ("running migration at index i: …"; both variants, every registry,
+script, cancellation / death / failed-write / failed-read tick): the index is that of a migration of the
+target that was pending at the start and is STILL not recorded as applied; `Run` did not return nil;
+and every target migration below it is applied or (contract of the runner) returned `(state, nil)`
+with a live context. So the error never points at a migration that is done, and nothing above the
+named index has been touched (`once_in_order`). -/
+theorem run_error_names_the_migration_that_stopped (cfg : Cfg) (reg : Registry) (env : Env) (d : Disk) (i : Nat)
+    (hi : runStopIdx cfg reg env d = some i) :
+    reg.target.has i = true ∧ d.cur.has i = false ∧ (run cfg reg env d).1.disk.cur.has i = false ∧
+    (run cfg reg env d).2 ≠ .ok ∧
+    (∀ k, k < i → reg.target.has k = true →
+      (run cfg reg env d).1.disk.cur.has k = true ∨ InProg (run cfg reg env d).1.log k) :=
+  run_stop cfg reg env d i hi
 
 /-- Two mandatory migrations; the first returns `(state, nil)` with a live context. -/
 def inProgStart : Start := ⟨[⟨false, false⟩, ⟨false, false⟩], ⟨fun i => if i = 0 then ⟨false, some [], .none⟩ else ⟨false, none, .none⟩, 999, 999, 0, false, fun _ => false⟩⟩
@@ -174,6 +218,61 @@ theorem missing_applied_migration_refused (cfg : Cfg) (reg : Registry) (hr : reg
     | ok => exact absurd h hno
     | optOut => rfl
     | downgrade => rfl
+
+/-- THE OPT-IN RECORD. A start that was accepted, could read the metadata and got its first write
+through (did not die before it, the write did not fail) leaves `LastTargetVersion` = its target —
+whatever happens afterwards in that start (failing migrations, cancellation, death, failed writes). -/
+theorem last_target_recorded_by_first_write (cfg : Cfg) (d : Disk) (st : Start)
+    (hok : newRunner cfg st.reg d = .ok) (hc : st.env.crashAt ≠ 0) (hf : st.env.failAt ≠ 1)
+    (hm : st.env.metaReadFails = false) : (start cfg d st).1.last = st.reg.target := by
+  rcases start_last cfg d st with h | ⟨_, _, _, _, h⟩
+  · -- the other branch of `start_last` is excluded by the hypotheses: the run satisfies `RunQ`
+    unfold start
+    rw [hm, hok]
+    exact (disk_cur_of_md (run_Q cfg st.reg st.env d hc hf).md).2
+  · exact h
+
+/-- "… or previously opted into", over HISTORIES (repaired `NewRunner`): once a start whose target
+contains migration `j` has recorded its target, every binary / configuration that is accepted after
+ANY further history (`mid`: restarts with other registries, crashes, cancellations, faults) has `j` in
+its target — an optional migration that was enabled once can never be dropped again, a binary that
+lacks it is refused. -/
+theorem opted_in_migration_required_by_every_later_binary (cfg : Cfg) (hfix : cfg.ignoreUnknownLast = false)
+    (d : Disk) (st : Start) (mid : List Start) (regF : Registry) (j : Nat)
+    (hok : newRunner cfg st.reg d = .ok) (hc : st.env.crashAt ≠ 0) (hf : st.env.failAt ≠ 1)
+    (hm : st.env.metaReadFails = false) (hj : st.reg.target.has j = true)
+    (hacc : newRunner cfg regF (starts cfg (start cfg d st).1 mid).1 = .ok) : regF.target.has j = true := by
+  have h1 : (start cfg d st).1.last.has j = true := by
+    rw [last_target_recorded_by_first_write cfg d st hok hc hf hm]; exact hj
+  have h2 := starts_last_mono cfg hfix mid _ j h1
+  exact ((downgrade_and_optout_refused cfg hfix regF _).mp hacc).2 j h2
+
+/-- THE STEPS AROUND THE RUNNER (node/migration.go `migrateIfNeeded`, tied at source level: `nodePlan`). When
+the deprecated migrations or the L1-head fetch fail, the runner is never built: its records are
+untouched and no migration is called; otherwise the start IS the runner's start (`start`: every runner
+theorem applies unchanged, with or without the status server); and whenever the runner is reached
+in prune mode an L1 head is stored (the prune migration never starts without one). -/
+theorem node_wiring_only_adds_refusals (cfg : Cfg) (ne : NodeEnv) (d : Disk) (st : Start) :
+    ((nodeStart cfg ne d st).2.2 = .deprecatedFailed ∨ (nodeStart cfg ne d st).2.2 = .l1HeadFailed →
+      (nodeStart cfg ne d st).1 = d ∧ (nodeStart cfg ne d st).2.1 = []) ∧
+    ((nodeStart cfg ne d st).2.2 ≠ .deprecatedFailed → (nodeStart cfg ne d st).2.2 ≠ .l1HeadFailed →
+      (nodeStart cfg ne d st).1 = (start cfg d st).1 ∧ (nodeStart cfg ne d st).2.1 = (start cfg d st).2.1 ∧
+      ne.deprecatedFails = false ∧ (ne.prune = true → fetchL1HeadIfMissing ne = true)) := by
+  unfold nodeStart
+  by_cases h1 : ne.deprecatedFails = true
+  · simp [h1]
+  · by_cases h2 : (ne.prune && !fetchL1HeadIfMissing ne) = true
+    · simp [h1, h2]
+    · have h1' : ne.deprecatedFails = false := by simpa using h1
+      simp only [h1, h2, Bool.false_eq_true, if_false]
+      rcases hs : start cfg d st with ⟨d', l, r⟩
+      cases r with
+      | none =>
+        simp only [reduceCtorEq, false_or, false_implies, ne_eq, not_false_eq_true, true_implies, true_and, h1']
+        intro hp; simpa [hp] using h2
+      | some r =>
+        simp only [reduceCtorEq, false_or, false_implies, ne_eq, not_false_eq_true, true_implies, true_and, h1']
+        intro hp; simpa [hp] using h2
 
 /-- WHICH ERROR `NewRunner` returns (current tree; `validateNoOptOut` transcribed with its flag list and
 its `break`, then `validateNoVersionDowngrade`): it accepts exactly when the accept/refuse model
@@ -344,6 +443,20 @@ theorem blocktx_preserves (cfg : BlockTx.Cfg) (hA : cfg.overwriteMigrated = fals
 theorem blocktx_previous_layout_inv (orig : Orig) (h : Nat) (db : Db) (ha : AllOld orig h db) : Inv orig h db :=
   ha.inv
 
+/-- THE COMMITTER MAY ELIDE BATCHES THAT HOLD NOTHING TO MIGRATE (round 5; the step alphabet of the theorems
+above contains `passSkip`, and `crashClear` / `failClear` for death / a failed `DeletePrefix` after the
+back-fill batch). A pass in which the write of any set of batches without old entries was skipped
+returns what the pass of the current committer returns, and the two databases differ at most on blocks
+WITHOUT transactions, which are then simply left as they were (no entry yet — the final back-fill
+writes it): a block that holds transactions is never concerned. Hence such a committer reaches the
+same final database (`blocktx_resume_same_result` quantifies over these steps too). -/
+theorem blocktx_elided_batches_hold_no_data (cfg : BlockTx.Cfg) (hA : cfg.overwriteMigrated = false)
+    (orig : Orig) (h : Nat) (db : Db) (hw : WFOrig orig) (hi : Inv orig h db) (emit : Option Nat) (sel : List Bool) :
+    (iteration cfg db h (.passSkip emit sel)).2 = (iteration cfg db h (.pass emit)).2 ∧
+    ∀ b, (iteration cfg db h (.passSkip emit sel)).1.blk b = (iteration cfg db h (.pass emit)).1.blk b ∨
+      (b ≤ h ∧ orig b = ([], []) ∧ (iteration cfg db h (.passSkip emit sel)).1.blk b = db.blk b) :=
+  passSkip_vs_pass hA hw hi emit sel
+
 /-- Blocks 0–9 and 20 with one transaction, blocks 10–19 empty. -/
 def gapDb : Db :=
   ⟨some 20, fun b => if b < 10 ∨ b = 20 then ⟨some 1, [1], [101], none⟩ else ⟨some 0, [], [], none⟩⟩
@@ -474,6 +587,50 @@ theorem applied_bit_means_headstate_consolidated (cfg : Cfg) (hfix : cfg.markOnN
     ⟨⟨hi, rfl⟩, fun hb => by rw [hbit] at hb; cases hb⟩
   exact ⟨hc.1.1, fun hb => (hc.2 hb).1⟩
 
+/-- THE HYPOTHESIS OF `in_order_when_state_only_on_cancel`, DISCHARGED FOR THE MODELLED MIGRATIONS (what the
+runner sees is `btRet` / `sdlRet` / `hsRet` of the data model's return). block-transactions hands the
+runner `(state, nil)` only from a call whose environment contains a cancellation step (`ctx.Done()`
+at the loop head, or the source cut short); statedifflength only when its source was cut short;
+headstate never (its resume state always comes with the wrapped context error). So between these
+migrations the order is strict. What remains an assumption: that the models' cancellation steps happen
+only when the runner's own context is cancelled (they transcribe `<-ctx.Done()` of that context), and the
+history pruner (no step model). -/
+theorem resume_state_without_error_only_when_cancelled :
+    (∀ (cfg : BlockTx.Cfg) (db : BlockTx.Db) (steps : List BlockTx.Step) (t : Bytes),
+      (btRet (BlockTx.migrate cfg db steps).2).st = some t → (btRet (BlockTx.migrate cfg db steps).2).err = .none →
+      ∃ s ∈ steps, s.cancels = true) ∧
+    (∀ (db : SDL.Db) (next : Nat) (st : SDL.Step) (t : Bytes),
+      (sdlRet (SDL.migrate db next st).2).st = some t → ∃ k, st = .pass (some k)) ∧
+    (∀ (db : HS.Db) (st : HS.Step) (t : Bytes),
+      (hsRet (HS.migrate db st).2).st = some t → (hsRet (HS.migrate db st).2).err ≠ .none) := by
+  refine ⟨?_, ?_, ?_⟩
+  · intro cfg db steps t h1 h2
+    cases hr : (BlockTx.migrate cfg db steps).2 <;> rw [hr] at h1 h2 <;> simp [btRet] at h1 h2
+    exact BlockTx.migrate_rerun_cancels cfg db steps hr
+  · intro db next st t h1
+    cases hr : (SDL.migrate db next st).2 <;> rw [hr] at h1 <;> simp [sdlRet] at h1
+    exact SDL.migrate_rerun_cancelled db next st _ hr
+  · intro db st t h1
+    cases hr : (HS.migrate db st).2 <;> rw [hr] at h1 <;> simp [hsRet] at h1 ⊢
+
+/-- DERIVED LOOKUPS. The buckets hash → (block, index) and L1 message hash → transaction hash are not named
+by the block-transactions migration at all (frame: the harness checks after every observed `Migrate`
+that no key outside the three buckets of the migration changed). For any lookup table `lk` that was
+right about the previous layout (`lk x = (b, i)` ⇒ transaction `x` is the `i`-th of block `b`), after
+ANY interruption history followed by a completed run the same entry resolves through the current
+accessors to the same transaction, with its own receipt at the same index. -/
+theorem blocktx_lookups_resolve_after_migration (cfg : BlockTx.Cfg) (hA : cfg.overwriteMigrated = false)
+    (hB : cfg.skipUnstoredEmpty = false) (orig : Orig) (h : Nat) (db : Db) (hw : WFOrig orig)
+    (hi : Inv orig h db) (att : List (List Step)) (steps : List Step)
+    (hd : (migrate cfg (attempts cfg db att) steps).2 = .done)
+    (lk : Item → Option (Nat × Nat))
+    (hlk : ∀ x b i, lk x = some (b, i) → b ≤ h ∧ (orig b).1[i]? = some x) (x : Item) (b i : Nat)
+    (hx : lk x = some (b, i)) :
+    ∃ c, view ((migrate cfg (attempts cfg db att) steps).1.blk b) = some c ∧ c.1[i]? = some x ∧
+      c.2[i]? = (orig b).2[i]? := by
+  obtain ⟨hb, hxi⟩ := hlk x b i hx
+  exact ⟨orig b, (blocktx_preserves cfg hA hB orig h db hw hi att steps hd b hb).1, hxi, rfl⟩
+
 /-- The checkpoint codec of statedifflength: `Before(encodeResume n)` restores `n` for every `uint64`;
 no token and the empty token mean block 0; any other length is rejected. -/
 theorem statedifflength_token_codec (n : Nat) (hn : n < 2 ^ 64) (b : Bytes) :
@@ -598,6 +755,21 @@ example : view ((migrate BlockTx.Cfg.fixed leadingEmptyDb []).1.blk 0) = some ([
 -- interrupted attempts really move the database: death after the only range was committed, before the final step
 example : ((attempts BlockTx.Cfg.fixed leadingEmptyDb [[.crash none [true]]]).blk 10).blob = some ([1], [101]) ∧
     ((attempts BlockTx.Cfg.fixed leadingEmptyDb [[.crash none [true]]]).blk 0).blob = none := by decide
+-- round 5 steps on `gapDb` (ranges 0 and 2 hold transactions, range 1 is empty): the batch of range 1 is
+-- elided — block 10 has no entry when the process dies before the final step, the completed run writes it;
+example : (migrate BlockTx.Cfg.fixed gapDb [.passSkip none [true, false, true], .crashFinal]).2 = .crashed ∧
+    ((migrate BlockTx.Cfg.fixed gapDb [.passSkip none [true, false, true], .crashFinal]).1.blk 10).blob = none ∧
+    ((migrate BlockTx.Cfg.fixed gapDb [.passSkip none [true, false, true], .crashFinal]).1.blk 20).blob = some ([1], [101]) ∧
+    (migrate BlockTx.Cfg.fixed gapDb [.passSkip none [true, false, true]]).2 = .done ∧
+    ((migrate BlockTx.Cfg.fixed gapDb [.passSkip none [true, false, true]]).1.blk 10).blob = some ([], []) := by decide
+-- a range WITH old entries cannot be elided: unselecting range 0 changes nothing
+example : ((migrate BlockTx.Cfg.fixed gapDb [.passSkip none [false, false, false], .crashFinal]).1.blk 0).blob = some ([1], [101]) := by decide
+-- death / a failed DeletePrefix after the back-fill batch: the data is complete, the call did not return (nil, nil)
+example : (migrate BlockTx.Cfg.fixed leadingEmptyDb [.pass none, .crashClear]).2 = .crashed ∧
+    ((migrate BlockTx.Cfg.fixed leadingEmptyDb [.pass none, .crashClear]).1.blk 0).blob = some ([], []) ∧
+    (migrate BlockTx.Cfg.fixed leadingEmptyDb [.pass none, .failClear]).2 = .failedNil ∧
+    (migrate BlockTx.Cfg.fixed leadingEmptyDb [.pass none, .crashFinal]).2 = .crashed ∧
+    ((migrate BlockTx.Cfg.fixed leadingEmptyDb [.pass none, .crashFinal]).1.blk 0).blob = none := by decide
 -- an undisturbed environment exists, and the repaired runner refuses the unknown-last witness
 example : Env.Undisturbed ⟨fun _ => ⟨false, none, .none⟩, 999, 999, 0, false, fun _ => false⟩ := ⟨fun _ => rfl, by decide, by decide, rfl, fun _ => rfl⟩
 example : newRunner Cfg.fixed [⟨false, false⟩, ⟨false, false⟩] ⟨some ⟨3#64, 7#64⟩, fun _ => none⟩ ≠ .ok := by decide
@@ -622,6 +794,21 @@ example : (cstarts sdlMig Cfg.fixed 0 freshDisk sdlDb
     [(⟨[⟨false, false⟩], ⟨fun _ => ⟨false, none, .none⟩, 2, 999, 0, false, fun _ => false⟩⟩, .pass (some 1)),
      (⟨[⟨false, false⟩], ⟨fun _ => ⟨false, none, .none⟩, 999, 999, 0, false, fun _ => false⟩⟩, .pass none)]).1.cur.has 0 = true := by decide
 example : SDL.before (some [1, 2, 3]) = none := by decide
+-- round 5: the three outcomes of the steps before the runner occur
+example : (nodeStart Cfg.fixed ⟨true, false, .present, false, false⟩ freshDisk l9Start).2.2 = .deprecatedFailed := by decide
+example : (nodeStart Cfg.fixed ⟨false, true, .missing, false, true⟩ freshDisk l9Start).2.2 = .l1HeadFailed := by decide
+example : (nodeStart Cfg.fixed ⟨false, true, .missing, true, true⟩ freshDisk l9Start).2.2 = .ran .errMigrate := by decide
+-- round 5: the error of `Run` names migration 1 when migration 1 fails (migration 0 completes first), and no
+-- migration when the context is cancelled at the loop head
+example : runStopIdx Cfg.fixed [⟨false, false⟩, ⟨false, false⟩]
+    ⟨fun i => if i = 1 then ⟨false, none, .other⟩ else ⟨false, none, .none⟩, 999, 999, 0, false, fun _ => false⟩ freshDisk = some 1 := by decide
+example : runStopIdx Cfg.fixed [⟨false, false⟩, ⟨false, false⟩]
+    ⟨fun _ => ⟨false, none, .none⟩, 1, 999, 0, false, fun _ => false⟩ freshDisk = none := by decide
+-- the opt-in record: an accepted start with the optional migration 1 enabled dies inside migration 0; a binary
+-- with migration 1 disabled is refused afterwards
+example : newRunner Cfg.fixed [⟨false, false⟩, ⟨true, false⟩]
+    (start Cfg.fixed freshDisk ⟨[⟨false, false⟩, ⟨true, true⟩], ⟨fun _ => ⟨false, none, .none⟩, 999, 3, 0, false, fun _ => false⟩⟩).1 ≠ .ok := by decide
+example : SV.toStr (5#64) = "SchemaVersion(0b0000000000000000000000000000000000000000000000000000000000000101)" := by decide
 -- a migration applied in the first start is not called in the second (and is called in the first)
 example : Event.call 0 (0#64) ∈ (start Cfg.fixed freshDisk ⟨[⟨false, false⟩], ⟨fun _ => ⟨false, none, .none⟩, 999, 999, 0, false, fun _ => false⟩⟩).2.1 ∧
     (starts Cfg.fixed freshDisk [⟨[⟨false, false⟩], ⟨fun _ => ⟨false, none, .none⟩, 999, 999, 0, false, fun _ => false⟩⟩]).1.cur.has 0 = true := by decide
